@@ -267,4 +267,39 @@ theorem mkStr_refines (a : Ghost) (u v : Str) : RefP a (mkStr u v) (strEdits u v
           rfl
       exact hs _ rfl
 
+/-- lists of machines against lists of scripts, element-wise -/
+theorem refL {ι : Type} (a : Ghost) (l : List ι) (Mf : ι → M) (Sf : ι → Script) (h : ∀ x ∈ l, RefP a (Mf x) (Sf x)) :
+    scriptL a (l.map Mf) = toDL (l.map Sf) ∧ finL a (l.map Mf) = sumCosts (l.map Sf) := by
+  induction l with
+  | nil => exact ⟨rfl, rfl⟩
+  | cons x xs ih =>
+    have hx := h x (by simp)
+    obtain ⟨i1, i2⟩ := ih (fun y hy => h y (by simp [hy]))
+    exact ⟨by simp only [List.map_cons, scriptL, toDL, hx.scr, i1],
+      by simp only [List.map_cons, finL, sumCosts_cons, hx.fin, i2]⟩
+
+theorem tail_toD (l : List Script) (h : ∀ s ∈ l, s.subs = []) : l.map DScript.ofScript = toDL l := by
+  rw [toDL_eq_map]
+  apply List.map_congr_left
+  intro s hs
+  exact ofScript_eq_toD s (h s hs)
+
+theorem mkKvp_refines (a : Ghost) (fk tk : Str) (veq : Bool) (ve : M) (sc : Script) (h : RefP a ve sc) :
+    RefP a (mkKvp fk tk veq ve) (kvpScript fk tk veq sc) := by
+  have hk : RefP a (if fk == tk then mkConst .match_ 0 else mkStr fk tk) (if fk == tk then mkMatch 0 else strEdits fk tk) := by
+    split
+    · exact RefP.const a 0
+    · exact mkStr_refines a fk tk
+  have hv : RefP a (if veq then mkConst .match_ 0 else ve) (if veq then mkMatch 0 else sc) := by
+    split
+    · exact RefP.const a 0
+    · exact h
+  have hk' := hk.relabel (.at 0) (.at 0)
+  have hv' := hv.relabel (.at 1) (.at 1)
+  refine ⟨rfl, ?_, ?_⟩
+  · simp only [mkKvp, kvpScript, scriptG, mkCompound, toD, toDL, hk'.scr, hv'.scr, hk'.fin, hv'.fin, sumCosts_cons,
+      sumCosts_nil, Nat.add_zero]
+  · simp only [mkKvp, kvpScript, finG, mkCompound, Script.cost_mk, hk'.fin, hv'.fin, sumCosts_cons, sumCosts_nil,
+      Nat.add_zero]
+
 end GtModel.Lazy
